@@ -540,8 +540,16 @@ func (area) Run(c *core.Ctx) error {
 			err = witnessBigBucket(c, db)
 		case 19:
 			err = memdbWorkerRegion(c, db)
+		case 20:
+			err = bufReuseRegion(c, rng, db, true)
+		case 21:
+			err = bufReuseRegion(c, rng, db, false)
 		default:
-			err = randomCase(c, rng, db)
+			if rng.Intn(12) == 0 {
+				err = bufReuseRegion(c, rng, db, false)
+			} else {
+				err = randomCase(c, rng, db)
+			}
 		}
 		if err != nil {
 			var he harnessError
